@@ -575,15 +575,18 @@ def main():
         # operation (the eviction loop of C01/C02, or a cyclic list: C07). For the other properties the job is merely incomplete
         # (recorded in the evidence); every step observed before the crash was still judged.
         hang = 'timed out' in cr['what']
-        concerned = ('C07', 'C01', 'C02') if hang else ('C07',)
-        if pid not in concerned:
-            incomplete.append(cr['job']); continue
         # the implementation killed the harness process: the last trace of the stream is the failing input
         try:
             n_tr = sum(1 for l in open(cr['stream'], errors='replace') if l.startswith('CFG 0 '))
             lines = [l for l in extract_trace(cr['stream'], n_tr - 1) if l.startswith(('CFG', 'OP'))] + ['END\n']
         except Exception:
             lines = []
+        last_op = next((l.split()[2] for l in reversed(lines) if l.startswith('OP ') and len(l.split()) > 2), '')
+        # an iterator that never stops is a violation of the iterator contract (and of the coherence of the traversal); any other
+        # operation that does not return is the eviction loop (C01 / C02) or a cyclic list (C07)
+        concerned = (('C12', 'C07') if last_op in ('iter', 'drain', 'into_iter') else ('C07', 'C01', 'C02')) if hang else ('C07',)
+        if pid not in concerned:
+            incomplete.append(cr['job']); continue
         path = write_replay(pid, 'crash' + cr['job'], ['property=%s' % pid, 'the real crate crashed the harness process while executing this trace (memory unsafety / abort):', cr['what'],
                                                       'the last OP line is the operation during which the process died'], lines)
         violations.append((path, 'implementation crashed during the correspondence run (%s)' % cr['job'], False))
